@@ -10,7 +10,7 @@ vars == <<scn, file, out, cls>>
 
 LayN(ver, dt, mode, bo, widths, rk, N, off, endc, pad, ev, stext, an, nx) ==
   [ver |-> ver, dt |-> dt, mode |-> mode, bo |-> bo, widths |-> widths, rk |-> rk, N |-> N,
-   off |-> off, endc |-> endc, pad |-> pad, ev |-> ev, stext |-> stext, an |-> an, nx |-> nx, order |-> "tda"]
+   off |-> off, endc |-> endc, pad |-> pad, ev |-> ev, stext |-> stext, an |-> an, nx |-> nx, order |-> "tda", onum |-> "zero"]
 DataFirst(l) == [l EXCEPT !.order = "dta"]
 LayA(ver, dt, mode, bo, widths, rk, N, off, endc, pad, ev, stext, an) ==
   LayN(ver, dt, mode, bo, widths, rk, N, off, endc, pad, ev, stext, an, 0)
@@ -44,7 +44,7 @@ FloatLayouts ==
 Unsupported ==
   {Lay(v, dt, mode, bo, ws, [p \in 1..Len(ws) |-> "pow"], 2, "header", "last", 0, "asc", FALSE) :
      v \in {"2.0", "3.1"}, dt \in {"I", "F", "D", "A"}, mode \in {"L", "H"},
-     bo \in {"4321", "21", "1234", "12", "3412"}, ws \in {<<16>>, <<12>>, <<16, 12>>, <<32, 32>>, <<64>>, <<16, 72>>}}
+     bo \in {"4321", "21", "1234", "12", "3412", "1324", "4231", "2143", "4441"}, ws \in {<<16>>, <<12>>, <<16, 12>>, <<32, 32>>, <<64>>, <<16, 72>>}}
 
 PatternLayouts ==
   {Lay("3.0", "I", "L", bo, ws, rk, 2, "header", "last", 0, ev, FALSE) :
@@ -71,6 +71,9 @@ Layouts ==
             v \in {"2.0", "3.1"}, bo \in {"4321", "1234"}, rk \in {"pow", "np"}, off \in {"header"}, ev \in {"asc", "ones"},
             ws \in {<<8, 16, 8, 16, 8, 16, 8, 16, 8, 16, 24>>, <<16, 16, 16, 16, 16, 16, 16, 16, 16, 32, 8, 8>>,
                     <<8, 8, 8, 8, 8, 8, 8, 8, 8, 8>>, <<32, 16, 8, 24, 16, 16, 8, 8, 16, 16, 40, 8, 16>>}}
+    [] Slice = "offset-styles" ->  \* the TEXT offsets blank-padded instead of zero-padded
+         {[l EXCEPT !.onum = st] : st \in {"right", "left"},
+            l \in {l \in AnalysisLayouts : IsV3(l.ver) /\ l.nx = 0 /\ l.pad = 0 /\ l.widths # <<32>>}}
     [] Slice = "unsupported" -> Unsupported
     [] Slice = "patterns" -> {l \in PatternLayouts : Len(l.rk) >= Len(l.widths)}
     [] OTHER -> {}
